@@ -6,6 +6,7 @@ package main
 // every extraction.
 
 import (
+	"crypto/md5"
 	"fmt"
 	"reflect"
 	"sort"
@@ -677,7 +678,7 @@ func minimise(poolKind string, h []uint8, clause string) ([]uint8, string) {
 
 type searcher struct {
 	poolKind string
-	states   map[string]struct{}
+	states   map[[16]byte]struct{} // 128-bit digests of the canonical states
 	trans    uint64
 	viols    map[string]string
 	order    []string
@@ -763,6 +764,8 @@ func (w *world) enabledList() []uint8 {
 	return out
 }
 
+func digest(s string) [16]byte { return md5.Sum([]byte(s)) }
+
 type node struct {
 	hist []uint8
 	en   []uint8
@@ -790,7 +793,7 @@ func (s *searcher) run(prefix []uint8, more int) {
 		}
 		h = append(h, e)
 	}
-	s.states[canon] = struct{}{}
+	s.states[digest(canon)] = struct{}{}
 	s.sig = core.Hash64(canon)
 	frontier := []node{{hist: h, en: en}}
 	for d := 0; d < more; d++ {
@@ -806,10 +809,11 @@ func (s *searcher) run(prefix []uint8, more int) {
 				if !ok {
 					continue
 				}
-				if _, seen := s.states[c]; seen {
+				dg := digest(c)
+				if _, seen := s.states[dg]; seen {
 					continue
 				}
-				s.states[c] = struct{}{}
+				s.states[dg] = struct{}{}
 				if !last {
 					nh := append(append(make([]uint8, 0, len(n.hist)+1), n.hist...), e)
 					next = append(next, node{hist: nh, en: en})
@@ -864,12 +868,13 @@ func poolFamily(poolKind string, depth, budget int) *core.Family {
 	}
 	return &core.Family{
 		Name: fmt.Sprintf("A-%s-depth%d", poolKind, depth), Size: size, BudgetSeconds: budget,
+		HangSeconds: budget + 120, // one shard may run until the family budget expires (it polls core.Expired)
 		Run: func(i uint64) core.Outcome {
 			if core.Expired() {
 				return core.Outcome{Partial: true}
 			}
 			st, ops := get(i)
-			s := &searcher{poolKind: poolKind, states: map[string]struct{}{}, viols: map[string]string{}}
+			s := &searcher{poolKind: poolKind, states: map[[16]byte]struct{}{}, viols: map[string]string{}}
 			s.run(append(startHist(st), ops...), depth-2)
 			curWorld = nil
 			return s.outcome()
